@@ -514,13 +514,15 @@ fn shrink(case: &Case, guard: Option<GuardPos>, kind: &str, run: &mut dyn FnMut(
         *runs += 1;
         run(c, g).fail_kind() == Some(kind)
     };
-    if g.is_some() && !kind.starts_with("fault") && still(&cur, None, &mut runs) {
+    // Is the guard page needed at all? (Some faults, e.g. a read through a
+    // dangling pointer, do not depend on it.)
+    if g.is_some() && still(&cur, None, &mut runs) {
         g = None;
     }
     let steps: Vec<Box<dyn Fn(&mut Case)>> = vec![
         Box::new(|c| c.mismatch = 0),
         Box::new(|c| c.threads = 1),
-        Box::new(|c| c.batch = c.batch.min(1)),
+        Box::new(|c| c.batch = 1),
         Box::new(|c| c.lhs_lay = 0),
         Box::new(|c| c.scales = 5),
         Box::new(|c| c.nibbles = 0),
